@@ -372,6 +372,11 @@ func objectDefineOwnProperty(obj *object, name string, descriptor property, thro
 		if !configurable {
 			return reject("property descriptor not configurable")
 		}
+		if !isDataDescriptor && descriptor.value == nil {
+			// Accessor => data without a value: the value defaults to undefined (8.12.9 step 9.c),
+			// the getter/setter pair must not survive as the "value".
+			descriptor.value = Value{}
+		}
 	case isDataDescriptor && descriptor.isDataDescriptor():
 		// DataDescriptor <=> DataDescriptor
 		if !configurable {
